@@ -228,6 +228,11 @@ def gen(tier, rng, harness, driver):
         for kind in ("func", "param", "load", "bitcast", "alias", "asm"):
             for sg, nx in (("F(v;)", 0), ("F(i32;i8)", 0), ("G(i32;p0(i8))", 0), ("G(i32;p0(i8))", 2), ("G(v;)", 1), ("F(p0(F(v;));i32)", 0)):
                 lines.append("cs.type %s %s %d %s" % (site, sg, nx, kind))
+    # the PARSER's result type of a call / invoke whose return type is a pointer to a function, written by the return type alone: the result used at that type
+    from . import catalog
+    for name, text, frags in catalog.round13_entries():
+        if "returns-function-pointer" in name:
+            lines.append("!mod.keeps %s %s" % ("\x1f".join(frags).encode().hex(), text.encode().hex()))
     return lines
 
 
